@@ -95,7 +95,7 @@ def _edit(H, pat, setter, fail_at, exc_type, supplied, touched, parity=0):
     return H.raises(pat.set_via_gen, gen)
 
 
-@contract("bulk_edit_all_or_nothing", ["C19"], targets=_T, cases=_shape_cases)
+@contract("bulk_edit_all_or_nothing", ["C19", "C14"], targets=_T, cases=_shape_cases)
 def bulk_edit_all_or_nothing(H, case):
     """For every failure position k (0 .. number of calls; one extra case for 'no failure') and every
     exception type of the family:
